@@ -12,7 +12,15 @@ def pipe(ctx, verdict, cases, name="extras"):
     return obs
 
 
-PIPES = {"extras": pipe}
+def kml_pipe(ctx, verdict, cases, name="kml"):
+    obs = vlib.run_driver(ctx, "kml", cases)
+    viols = vlib.model_b(ctx, "KMLObs", "Obs.cfg", obs, name="KMLObs")
+    for idx, v in viols:
+        verdict.add(name, v["sig"], cases[idx], dict())
+    return obs
+
+
+PIPES = {"extras": pipe, "kml": kml_pipe}
 
 
 def run(ctx, verdict):
@@ -20,3 +28,12 @@ def run(ctx, verdict):
     cases = sorted(out["CASE"], key=vlib.digest)
     vlib.note_cases(ctx, cases)
     pipe(ctx, verdict, cases)
+    # the KML renderer over the geometry trees of the WKT render model (specs/KML.tla)
+    out, r = vlib.model_a(ctx, "KMLModel", "KML_quick.cfg" if ctx.quick else "KML_thorough.cfg", ["CASE"], workers=4)
+    kcases = sorted(out["CASE"], key=vlib.digest)
+    # layouts the WKT trees do not have: more than four ordinates (the first three are written), no layout at all
+    kcases += [dict(g=dict(t="LS", l="L5", body=[[1, 2, 3, 4, 5], [6, 7, 8, 1, 2]])), dict(g=dict(t="PT", l="L6", body=[1, 2, 3, 4, 5, 6])),
+               dict(g=dict(t="LS", l="No", body=[])), dict(g=dict(t="PG", l="No", body=[])), dict(g=dict(t="MPT", l="No", body=[]))]
+    vlib.note_cases(ctx, kcases)
+    kml_pipe(ctx, verdict, kcases)
+    ctx.coverage_extra["kml_trees"] = len(kcases)
